@@ -123,7 +123,8 @@ impl Decoder for LSCodec {
         };
         let length_header = headers
             .iter()
-            .find(|header| header.name == "Content-Length")
+            // header field names are case insensitive
+            .find(|header| header.name.eq_ignore_ascii_case("Content-Length"))
             .ok_or(CodecError::InvalidHeaders)?;
         let length_str =
             std::str::from_utf8(length_header.value).map_err(|_| CodecError::InvalidHeaders)?;
